@@ -30,22 +30,28 @@ Definition refresh (s : sstate) : sstate :=
 Definition s_viable (s : sstate) (n : snode) : bool :=
   ((s_je n =? fst (ss_just s)) || (fst (ss_just s) =? 0)) && ((s_fe n =? fst (ss_fin s)) || (fst (ss_fin s) =? 0)).
 
-(* sum of the balances of the validators whose (applied) vote lies in the fork-choice subtree of n: each validator once *)
-Fixpoint weight_from (t : tree) (n : snode) (votes : list (option ref)) (bal : list N) : Z :=
+(* the fork-choice ancestors of a node, itself included: the nodes whose subtree it lies in *)
+Definition fc_chain (t : tree) (m : snode) : list ref :=
+  map s_ref (m :: ancestors_from (fc_parent t) (tree_fuel t) m).
+
+(* per validator with an applied vote for a known node: the nodes that vote supports, and the validator's balance *)
+Fixpoint vote_chains (t : tree) (votes : list (option ref)) (bal : list N) : list (list ref * N) :=
   match votes with
-  | [] => 0%Z
+  | [] => []
   | v :: votes' =>
       let b := match bal with [] => 0 | b :: _ => b end in
-      let rest := weight_from t n votes' (tl bal) in
+      let rest := vote_chains t votes' (tl bal) in
       match v with
-      | Some r => match find_node t r with
-                  | Some m => if is_fc_desc t (s_ref n) m then (Z.of_N b + rest)%Z else rest
-                  | None => rest
-                  end
+      | Some r => match find_node t r with Some m => (fc_chain t m, b) :: rest | None => rest end
       | None => rest
       end
   end.
-Definition s_weight (s : sstate) (n : snode) : Z := weight_from (ss_tree s) n (ss_applied s) (ss_bal s).
+
+(* sum of the balances of the validators whose (applied) vote lies in the fork-choice subtree of r: each validator once *)
+Definition weight_of (chains : list (list ref * N)) (r : ref) : Z :=
+  fold_left (fun acc cb => if ref_mem r (fst cb) then (acc + Z.of_N (snd cb))%Z else acc) chains 0%Z.
+Definition s_chains (s : sstate) : list (list ref * N) := vote_chains (ss_tree s) (ss_applied s) (ss_bal s).
+Definition s_weight (s : sstate) (n : snode) : Z := weight_of (s_chains s) (s_ref n).
 
 Definition fc_children (t : tree) (n : snode) : list snode :=
   filter (fun m => match fc_parent t m with Some p => ref_eqb (s_ref p) (s_ref n) | None => false end) t.
